@@ -109,3 +109,23 @@ example : ReturnsTrueReconstruction
 example : (0 : ℝ) ≤ 1 / 2 ∧ (1 / 2 : ℝ) ≤ 2 ∧ (0 : ℝ) < 2 := by norm_num
 
 end Odak
+
+/-! ## The returned phase of `multi_color_hologram_optimizer.optimize` REGENERATED from the Python source
+  (`OdakModel/Generated/Quantisers.lean: quantizedPhaseT`, tied to `quantizedPhase` by `Lemmas/GenQuantisers.lean`). -/
+namespace Odak
+open Gen
+
+/-- generated quantised optimiser output: for EVERY optimised phase value and bit depth the returned phase is `k · 2π / 2^bits`
+    for an integer level `0 ≤ k < 2^bits`, hence on the SLM's grid and inside `[0, 2π)` -/
+theorem C07_gen_quantized_phase_on_grid (bits : Nat) (φ : ℝ) :
+    ∃ k : ℕ, k < 2 ^ bits ∧ quantizedPhaseT φ bits = (k : ℝ) * (2 * Real.pi) / 2 ^ bits ∧
+      0 ≤ quantizedPhaseT φ bits ∧ quantizedPhaseT φ bits < 2 * Real.pi := by
+  rw [quantizedPhaseT_eq]; exact C07_quantized_phase_on_grid bits φ
+
+/-- … and it is the generated `quantize` of the wrapped phase, scaled by `2π / 2^bits` -/
+theorem C07_gen_quantized_phase_is_quantize (bits : Nat) (φ : ℝ) :
+    quantizedPhaseT φ bits = quantizeT (Num.fmod φ (2 * Real.pi)) bits 0 (2 * Real.pi) / 2 ^ bits * 2 * Real.pi := by
+  rw [quantizedPhaseT_eq, quantizeT_eq]
+  simp only [quantizedPhase, Num.pow2, num_two, num_pi, num_ofNat, Nat.cast_pow, Nat.cast_ofNat]
+
+end Odak
